@@ -219,10 +219,10 @@ def judge(module, cfg, records, shards=None, timeout=3600, tag='judge', env=None
             raise MachineryError('TLC judge %s consumed %d of %d records of %s' % (module, r.distinct - 1, n, path))
         out = {}
         for line in r.stdout.splitlines():
-            m = _VERDICT.match(line.strip())
-            if m:
-                vals = _parse_tla_value(m.group(1))
-                out[str(vals[0])] = vals[1:]
+            line = line.strip()
+            if line.startswith('"[\\"VERDICT\\"'):
+                vals = json.loads(json.loads(line))
+                out[str(vals[1])] = vals[2:]
         return out, n
 
     verdicts = {}
